@@ -56,7 +56,24 @@ pub mod verif_log {
         crate::time::verif_clock::elapsed_ns()
     }
 
+    static TERSE: std::sync::atomic::AtomicBool = std::sync::atomic::AtomicBool::new(false);
+
+    /// In terse mode only coarse events are kept (long runs of many nodes would otherwise log
+    /// gigabytes): everything but datagram contents, table operations, timers and id generation.
+    pub fn set_terse(on: bool) {
+        TERSE.store(on, std::sync::atomic::Ordering::SeqCst);
+    }
+
     pub fn record(event: String) {
+        if TERSE.load(std::sync::atomic::Ordering::SeqCst) {
+            const DROP: [&str; 14] = [
+                "SEND ", "RECV ", "WIRE ", "DELIVER ", "T_", "GEN ", "SCHED ", "CANCEL ", "EV_", "TO_BOOTSTRAP",
+                "AIDS ", "DROP ", "NOENDPOINT", "SENDFAIL",
+            ];
+            if DROP.iter().any(|p| event.starts_with(p)) {
+                return;
+            }
+        }
         let line = format!("{} {}", now_ns(), event);
         LOG.with(|l| l.borrow_mut().push(line));
     }
